@@ -426,3 +426,124 @@ func VF_C01_ArraySetValues(n, m int) {
 	}
 	vf.Reach("end")
 }
+
+// VF_C01_LaterHistory: a result handed out earlier is a value of the abstract sequence at that time;
+// later operations on the receiver (or on the result) do not change what the other one shows.
+// kind 0: List.GetValues, 1: Array.GetValues, 2: List.AsArray, 3: Array.AsArray, 4: List.Concatenate,
+// 5: List.MakeFromSequence.
+func VF_C01_LaterHistory(n, kind int) {
+	xs := vf.Ints("xs", n)
+	w := vf.Int("w")
+	vf.Budget(listBudget)
+	switch kind {
+	case 0, 1:
+		if n == 0 {
+			break
+		}
+		first, last := vf.Int("first"), vf.Int("last")
+		vf.Assume(vf.And(validIdx(first, n), validIdx(last, n)))
+		vf.Assume(norm(first, n) <= norm(last, n))
+		k := vf.Int("k")
+		vf.Assume(validIdx(k, n))
+		var got col.Sequential[int]
+		var now func() []int
+		if kind == 0 {
+			l := newList(xs)
+			got = l.GetValues(first, last)
+			snap := clone(got.AsArray())
+			l.SetValue(k, w)
+			vf.Assert("range-result-unaffected-by-later-update", eqInts(got.AsArray(), snap))
+			l.ReverseValues()
+			vf.Assert("range-result-unaffected-by-later-reversal", eqInts(got.AsArray(), snap))
+			l.RemoveAll()
+			vf.Assert("range-result-unaffected-by-later-removal", eqInts(got.AsArray(), snap))
+			now = l.AsArray
+		} else {
+			a := newArr(xs)
+			got = a.GetValues(first, last)
+			snap := clone(got.AsArray())
+			a.SetValue(k, w)
+			vf.Assert("range-result-unaffected-by-later-update", eqInts(got.AsArray(), snap))
+			a.ReverseValues()
+			vf.Assert("range-result-unaffected-by-later-reversal", eqInts(got.AsArray(), snap))
+			now = a.AsArray
+		}
+		// and the other way round: updating the result (when it is updatable) leaves the receiver alone
+		if u, ok := got.(col.Updatable[int]); ok {
+			before := clone(now())
+			u.SetValue(1, w)
+			vf.Assert("receiver-unaffected-by-update-of-range-result", eqInts(now(), before))
+		}
+	case 2:
+		l := newList(xs)
+		view := l.AsArray()
+		snap := clone(view)
+		l.AppendValue(w)
+		if n > 0 {
+			l.SetValue(1, w)
+			l.SetValue(-1, w)
+		}
+		vf.Assert("array-view-unaffected-by-later-update", eqInts(view, snap))
+		l2 := newList(xs)
+		v2 := l2.AsArray()
+		for i := range v2 {
+			v2[i] = w
+		}
+		vf.Assert("list-unaffected-by-writes-to-array-view", eqInts(l2.AsArray(), xs))
+	case 3:
+		a := newArr(xs)
+		view := a.AsArray()
+		snap := clone(view)
+		if n > 0 {
+			a.SetValue(1, w)
+			a.SetValue(-1, w)
+		}
+		vf.Assert("array-view-unaffected-by-later-update", eqInts(view, snap))
+		v2 := a.AsArray()
+		before := clone(v2)
+		for i := range v2 {
+			v2[i] = w
+		}
+		vf.Assert("array-unaffected-by-writes-to-array-view", eqInts(a.AsArray(), before))
+	case 4:
+		cls := col.List[int](nil)
+		ys := vf.Ints("ys", n/2)
+		a, b := cls.MakeFromArray(xs), cls.MakeFromArray(ys)
+		c := cls.Concatenate(a, b)
+		want := cat(xs, ys)
+		a.AppendValue(w)
+		b.AppendValue(w)
+		if n > 0 {
+			a.SetValue(1, w)
+		}
+		if n/2 > 0 {
+			b.SetValue(1, w)
+		}
+		vf.Assert("concatenation-unaffected-by-later-operand-updates", eqInts(c.AsArray(), want))
+		a2, b2 := cls.MakeFromArray(xs), cls.MakeFromArray(ys)
+		c2 := cls.Concatenate(a2, b2)
+		c2.AppendValue(w)
+		if n+n/2 > 0 {
+			c2.SetValue(1, w)
+			c2.SetValue(-2, w)
+		}
+		vf.Assert("left-operand-unaffected-by-updates-of-concatenation", eqInts(a2.AsArray(), xs))
+		vf.Assert("right-operand-unaffected-by-updates-of-concatenation", eqInts(b2.AsArray(), ys))
+	case 5:
+		cls := col.List[int](nil)
+		src := newArr(xs)
+		l := cls.MakeFromSequence(src)
+		if n > 0 {
+			src.SetValue(1, w)
+		}
+		vf.Assert("list-unaffected-by-later-update-of-source", eqInts(l.AsArray(), xs))
+		src2 := clone(xs)
+		l2 := cls.MakeFromArray(src2)
+		for i := range src2 {
+			src2[i] = w
+		}
+		vf.Assert("list-unaffected-by-later-writes-to-source-array", eqInts(l2.AsArray(), xs))
+	}
+	vf.BudgetReset()
+	vf.Reach("end")
+}
